@@ -24,7 +24,7 @@ NOT_PROVED = ["finiteness in floating point (checked on every case)",
               "C03.d 's_a never below the raw value' in the corner 6*dt' <= T < 6*dt: false of code and model (open finding F03-1)",
               "C03.e 'final input energy >= 0': the discrete sum sum(a*v*dt) has no sign (open finding F03-2); enforced on realistic records only",
               "C03.c |true S_a / pseudo S_a - 1| < 3e-9 for xi = 0 uses C01.f (6.2831853 vs 2*pi); checked numerically here",
-              "C03.d composition of the step decision with the C14 interpolation and the C01 response (checked by exact reproduction on every case)",
+              "C03.d composition of the step decision with the C14 interpolation and the C01 response IS proved (Props/C03Compose: object_spectra_spec, object_spectra_retains, object_spectra_rows_sampled, object_spectra_sd_ge_raw); not proved: the same chain in binary64 (checked by exact reproduction on every case)",
               "IEEE rounding (measured); comparisons T < 6*dt and target_dt < dt are taken on the impl's float products/quotients"]
 ASSUMPTIONS = ["libm exp/sin/cos/sqrt are the real functions up to rounding (response series, C01)"]
 
